@@ -70,14 +70,26 @@ class NoCopyAtom:
     __copy__ = __deepcopy__
 
 
+class NoEqAtom(NoCopyAtom):
+    """An input value whose comparison raises (as e.g. ragged / ambiguous array comparisons do): two runs cannot tell
+    whether their inputs are the same; pipefunc then proceeds ("hoping for the best")."""
+
+    def __eq__(self, o: object) -> bool:
+        raise ValueError("the truth value of comparing NoEqAtoms is ambiguous")
+
+    __hash__ = NoCopyAtom.__hash__
+    __deepcopy__ = None      # copyable again (RunInfo.dump deep-copies its inputs)
+    __copy__ = None
+
+
 def inputs_to_py(inputs: list[list], kinds: dict[str, str] | None = None) -> dict[str, Any]:
     """[[name, value-json]] -> python inputs; arrays of rank 1 as list or ndarray (kinds[name]), rank>=2 ndarray.
     kinds[name] == "userclass": a list whose elements are instances of a class defined in __main__."""
     out: dict[str, Any] = {}
     for name, vj in inputs:
         t = from_json(vj)
-        if (kinds or {}).get(name) in ("userclass", "nocopy"):
-            cls = user_atom_class() if kinds[name] == "userclass" else NoCopyAtom
+        if (kinds or {}).get(name) in ("userclass", "nocopy", "noeq"):
+            cls = user_atom_class() if kinds[name] == "userclass" else NoCopyAtom if kinds[name] == "nocopy" else NoEqAtom
             out[name] = [cls(x.f) for x in t.a] if t.f == "#arr" and all(not y.a for y in t.a) else cls(t.f) if not t.a else t
             if isinstance(out[name], Term):
                 out[name] = list(to_nd(t))
